@@ -193,6 +193,16 @@ func visitInstr(fr *frame, instr ssa.Instruction) continuation {
 	if E.instrs > E.MaxInstrs {
 		panic(pathUnsupported{"instruction budget exceeded"})
 	}
+	if E.budgetAt > 0 && E.instrs > E.budgetAt {
+		// a harness-declared termination bound (verifrt.StepBudget) was exceeded on a feasible path
+		msg := E.budgetMsg
+		E.budgetAt = 0
+		m := map[string]string{}
+		if E.checkSat("") == "sat" {
+			m = E.model()
+		}
+		panic(pathViolation{Violation{Kind: "assert", Msg: msg, Model: m, Prefix: append([]bool{}, E.trace...)}})
+	}
 	switch instr := instr.(type) {
 	case *ssa.DebugRef:
 		// no-op
@@ -489,7 +499,7 @@ func prepareCall(fr *frame, call *ssa.CallCommon) (fn value, args []value) {
 		// Interface method invocation.
 		recv := v.(iface)
 		if recv.t == nil {
-			panic("method invoked on nil interface")
+			panic(runtimeErr("invalid memory address or nil pointer dereference (method invoked on nil interface)"))
 		}
 		if f := lookupMethod(fr.i, recv.t, call.Method); f == nil {
 			// Unreachable in well-typed programs.
